@@ -465,7 +465,7 @@ func Run(r *fw.Run) {
 		"alternatives per dynamic range execution over n keys: all n!-1 other orders for n<=3, else reverse, rotate-by-one and move-element-i-to-front",
 		"only returned strings / verdicts are compared; logs and the order of Errors() are not"}
 	if r.Quick() {
-		r.SetBudget(170 * time.Second)
+		r.SetBudget(300 * time.Second)
 	} else {
 		r.SetBudget(40 * time.Minute)
 	}
